@@ -140,16 +140,46 @@ def coq_build(cfg, tier, log):
         return rc == 0, out
 
 
-def forbidden_scan():
-    hits = []
+def dep_cone(targets):
+    """.v files in the dependency cone of the given .vo targets (from coq_makefile's .Makefile.d)."""
+    deps = {}
+    try:
+        txt = open(os.path.join(COQ, ".Makefile.d")).read().replace("\\\n", " ")
+    except OSError:
+        return None
+    for line in txt.splitlines():
+        if ":" not in line:
+            continue
+        lhs, rhs = line.split(":", 1)
+        outs = [x for x in lhs.split() if x.endswith(".vo")]
+        ins = [x for x in rhs.split() if x.endswith(".vo") and x.startswith("theories/")]
+        for o in outs:
+            deps.setdefault(o, set()).update(ins)
+    seen, todo = set(), list(targets)
+    while todo:
+        t = todo.pop()
+        if t in seen:
+            continue
+        seen.add(t)
+        todo += list(deps.get(t, ()))
+    return {t[:-1] for t in seen}  # .vo -> .v
+
+
+def forbidden_scan(cfg=None):
+    """Forbidden vernacular in the dependency cone of the property (global if the cone is unknown)."""
+    cone = None
+    if cfg is not None:
+        cone = dep_cone([cfg["props_file"].replace(".v", ".vo")] + cfg.get("extra_vo", []))
+    hits, elsewhere = [], []
     for p in glob.glob(os.path.join(COQ, "theories", "**", "*.v"), recursive=True):
         with open(p, errors="replace") as f:
             txt = f.read()
         # strip comments (non-nested approximation is enough: we only want to avoid false alarms on prose)
         stripped = re.sub(r"\(\*.*?\*\)", "", txt, flags=re.S)
+        rel = os.path.relpath(p, COQ)
         for m in FORBIDDEN.finditer(stripped):
-            hits.append("%s: %s" % (os.path.relpath(p, ROOT), m.group(0)))
-    return hits
+            (hits if cone is None or rel in cone else elsewhere).append("%s: %s" % (rel, m.group(0)))
+    return hits, elsewhere
 
 
 def theorems_of(cfg):
@@ -276,7 +306,7 @@ def run_check(pid, tier, seed, replay=None):
             cfg["props_file"], (" at %s:%s" % (m.group(1), m.group(2))) if m else ""),
             "tail": coq_out[-1500:]})
 
-    hits = forbidden_scan()
+    hits, forbidden_elsewhere = forbidden_scan(cfg)
     if hits:
         broken.append({"kind": "forbidden-vernacular", "detail": hits[:10]})
 
@@ -445,6 +475,7 @@ def run_check(pid, tier, seed, replay=None):
                        "search_evaluations": searched},
             "broken": broken,
             "sources_changed_since_baseline": changed,
+            "forbidden_vernacular_outside_cone": forbidden_elsewhere[:10],
             "coqchk": chk,
             "extra": [r.get("extra") for r in results if r.get("extra")][:1],
         },
